@@ -209,6 +209,22 @@ WITNESSES = [
                                              ([b"inst", b"_t", b"_tcp", b"local"], 33, 0x8001, 120, dnsgen.rd_srv(0, 0, 80, [b"h", b"local"])),
                                              ([b"inst", b"_t", b"_tcp", b"local"], 33, 0x8001, 120, dnsgen.rd_srv(0, 0, 81, [b"h", b"local"]))])]},
                             {"run_until": T0 + 4000}])),
+    ("w_added_twice", hist("a requires_probe(false) addr_auto service; its interface is disabled at +2500 ms and enabled "
+                           "at +2600 ms: add_interface announces at once and (fix 4b0055d) again one second later", V4,
+                           [{"t": T0, "d": 0, "calls": [{"op": "monitor", "ch": "m"}, reg(ips="auto", probe=False)]},
+                            {"run_until": T0 + 2500},
+                            {"t": T0 + 2500, "d": 0, "calls": [{"op": "disable_interface", "kinds": [{"k": "Name", "v": "eth0"}]}]},
+                            {"t": T0 + 2600, "d": 0, "calls": [{"op": "enable_interface", "kinds": [{"k": "Name", "v": "eth0"}]}]},
+                            {"run_until": T0 + 5000}])),
+    ("w_resend_probes", hist("a fixed-address service; the interface goes and returns between its two announcements: the "
+                             "pending second announcement finds a fresh registry, starts probes and (fix 2ff6a49) asks "
+                             "for their wake-up: three probes at +1993, +2243, +2493 ms (no announcement follows: the status "
+                             "stayed Announced, finding C07-static-service-answers-unprobed-after-interface-return)", V4,
+                             [{"t": T0, "d": 0, "calls": [{"op": "monitor", "ch": "m"}, reg(name="dev", host="box.local.", ips="192.168.1.77", port=8080)]},
+                              {"run_until": T0 + 1000},
+                              {"t": T0 + 1000, "d": 0, "calls": [{"op": "disable_interface", "kinds": [{"k": "Name", "v": "eth0"}]}]},
+                              {"t": T0 + 1100, "d": 0, "calls": [{"op": "enable_interface", "kinds": [{"k": "Name", "v": "eth0"}]}]},
+                              {"run_until": T0 + 5000}])),
     ("w_unregister", hist("register, both announcements, unregister, repeat, then a PTR question: no answer", V4,
                           [{"t": T0, "d": 0, "calls": [{"op": "monitor", "ch": "m"}, reg()]}, {"run_until": T0 + 2500},
                            {"t": T0 + 2500, "d": 0, "calls": [{"op": "unregister", "name": "INST._t._tcp.local.", "ch": "u1"}]},
